@@ -233,6 +233,8 @@ type Scenario struct {
 	FileExt              string            `json:",omitempty"` // fileExtension=<ext> on the batch line (rotation, polygon, automan files carry it)
 	GWId                 string            `json:",omitempty"` // gwId=<id> on the batch line selects the groundwater series
 	freshRef             map[int]*freshRec // per day: parameters of the reference run with a forced re-evaluation (not serialised)
+	OwnFertRows          []FertRow         `json:",omitempty"` // rows added to the fertiliser table of the project's own parameter folder
+	OwnFertFront         []bool            `json:",omitempty"` // ... listed in front of the shipped rows (else behind them)
 	ReducedTablesWithout string            // the project runs with a parameter folder of its own whose texture tables lack this texture
 	OwnNFunction         map[string]int    `json:",omitempty"` // YAML crop parameter file -> N-content function (7, 8, 9) it carries in the project's own parameter folder
 	AliasCrops           map[string]string // crop code of the built-in table without a shipped parameter file -> shipped crop whose parameter file the project supplies under that name
@@ -393,6 +395,16 @@ func loadTables() error {
 		return fmt.Errorf("too few fertilisers parsed")
 	}
 	return nil
+}
+
+// fertRowOf: the row of the fertiliser table the project runs with (its own rows first)
+func (sc *Scenario) fertRowOf(name string) *FertRow {
+	for i := range sc.OwnFertRows {
+		if sc.OwnFertRows[i].Name == name {
+			return &sc.OwnFertRows[i]
+		}
+	}
+	return fertRow(name)
 }
 
 func fertRow(name string) *FertRow {
@@ -1498,6 +1510,32 @@ func genEvents(sc *Scenario, r *Rng, p Profile) {
 		row := fertTable[r.Intn(len(fertTable))]
 		sc.Fert = append(sc.Fert, FertEvent{DateOfZeit(z), r.Range(1, 250), row.Name})
 	}
+	// 15 % of the C10 schedules: a fertiliser table of the project's own (parameter folder of its own) - the shipped rows
+	// plus rows whose names extend the name of a scheduled fertiliser (RG1 -> RG10, RG12; KAS -> KAS2 ...), with other
+	// contents, listed behind and in front of it; some of the scheduled applications use the longer names
+	if rf := NewRng(mix(mix(sc.Seed, uint64(sc.Index)), 1010)); sc.Prop == "C10" && len(sc.Fert) > 0 && rf.Bool(0.15) {
+		for k, n := 0, rf.Range(1, 3); k < n; k++ {
+			base := sc.Fert[rf.Intn(len(sc.Fert))].Type
+			if len(base) > 3 {
+				continue
+			}
+			for j, m := 0, rf.Range(1, 3); j < m; j++ {
+				row := FertRow{Name: base + pickS(rf, []string{"0", "1", "2", "X", "10", "b"}),
+					Ntot: float64(rf.Range(30, 900)) / 100, Ndir: float64(rf.Range(5, 95)) / 100, Nfst: float64(rf.Range(5, 60)) / 100,
+					Nslo: float64(rf.Range(5, 40)) / 100, NH4: float64(rf.Range(0, 100)) / 100, Loss: float64(rf.Range(0, 30)) / 100}
+				if sc.fertRowOf(row.Name) != nil {
+					continue
+				}
+				sc.OwnFertRows = append(sc.OwnFertRows, row)
+				sc.OwnFertFront = append(sc.OwnFertFront, rf.Bool(0.4))
+			}
+		}
+		for i := range sc.Fert {
+			if len(sc.OwnFertRows) > 0 && rf.Bool(0.3) {
+				sc.Fert[i].Type = sc.OwnFertRows[rf.Intn(len(sc.OwnFertRows))].Name
+			}
+		}
+	}
 	// tillage: only in fallow windows (a tillage between sowing and harvest is a reported input error)
 	ws := sc.fallowWindows()
 	nt := r.Range(0, p.TillMax)
@@ -1644,6 +1682,10 @@ func genOutputConfigs(sc *Scenario, r *Rng, p Profile) {
 		sc.DailyCols = cols
 		if r.Bool(0.4) {
 			sc.OutStyle.Sep = []string{";", "|", ",", ":"}[r.Intn(4)]
+			// a quarter of them: a separator outside ASCII (two or three bytes in the file)
+			if rs := NewRng(mix(mix(sc.Seed, uint64(sc.Index)), 2626)); rs.Bool(0.25) {
+				sc.OutStyle.Sep = pickS(rs, []string{"¦", "§", "·", "→"})
+			}
 		}
 		if r.Bool(0.3) {
 			sc.OutStyle.Na = []string{"''", "-9999", "NA"}[r.Intn(3)]
